@@ -15,7 +15,7 @@ from sa import sigdata, families, codec, tables
 from sa.interp import alpha, sl, Interp, Scenario, Sym, Const, Bytes, Enum, render, render_items, merge_consts, render_item
 from sa.loader import AnalysisError, dotted
 from sa.sigdata import enum_const
-from sa.templates import resolve_lookup, display_keys, area_template, match, render_template
+from sa.templates import resolve_lookup, display_keys, area_template, match, render_template, Pred, C, BYTE, SYM
 
 noinline = lambda f: False  # noqa: E731
 
@@ -81,12 +81,22 @@ def run(rep, prog, tier):
 
 
 # ------------------------------------------------------------------------------------------------ C02.1c
-def _new_calls(states):
+def _new_calls(states, prog):
+    """(state, call) for every PGPSignature.new call, the call's argument texts bound to the callee's parameters in order (a call
+    spelled with keywords and one spelled positionally are the same call)."""
+    params = prog.method('pgpy.pgp', 'PGPSignature', 'new').params[1:]
     out = []
     for s in states:
         for c in s.calls:
-            if c[0] == 'PGPSignature.new' and (s, c) not in out:
-                out.append((s, c))
+            if c[0] == 'PGPSignature.new':
+                a = list(c[1])
+                for p in params[len(a):]:
+                    if p not in c[2]:
+                        break
+                    a.append(c[2][p])
+                c2 = (c[0], a, c[2], c[3], c[4])
+                if not any(x[1][:3] == c2[:3] and x[0] is s for x in out):
+                    out.append((s, c2))
     return out
 
 
@@ -118,8 +128,8 @@ def check_type_selection(rep, prog):
             args.update(at(fi, p2=Sym('level')))
         outs = Interp(prog, Scenario(args=args, inline=noinline, join_unknown=True)).run(fi)
         rep.analysed['paths'] += len(outs)
-        news = _new_calls(outs)
-        types = sorted(set(c[1][0] if c[1] else c[2].get('sigtype') for s, c in news))
+        news = _new_calls(outs, prog)
+        types = sorted(set(c[1][0] if c[1] else None for s, c in news), key=str)
         rep.check(types == [want], 'C02.1c', 'PGPKey.%s' % meth, '%s subject -> %s' % (label, types),
                   '%s of a %s must produce a %s signature' % (meth, label, want), where=fi.where, expected=want, found=types,
                   scenario='%s(%s)' % (meth, label))
@@ -149,9 +159,12 @@ def check_type_selection(rep, prog):
     for sp, kp, want in ((True, False, 'SignatureType.Subkey_Binding'), (False, True, 'SignatureType.PrimaryKey_Binding')):
         sc = Scenario(bind={'self.is_primary': Const(sp)}, args=at(fb, p1=S('key', ['PGPKey'], is_primary=kp)), inline=noinline)
         outs = Interp(prog, sc).run(fb)
-        types = sorted(set(c[1][0] for s, c in _new_calls(outs) if c[1]))
+        types = sorted(set(c[1][0] for s, c in _new_calls(outs, prog) if c[1]))
         rep.check(types == [want], 'C02.1c', 'PGPKey.bind', 'primary=%s binds primary=%s -> %s' % (sp, kp, types),
                   'a primary binding a subkey makes 0x18; a subkey binding its primary makes 0x19', where=fb.where, expected=want, found=types)
+        subj = sorted(set(c[1][0] if c[1] else None for s in outs for c in s.calls if c[0] == 'self._sign'), key=str)
+        rep.check(subj == ['key'], 'C02.1c', 'PGPKey.bind', 'primary=%s binds primary=%s: _sign subject %s' % (sp, kp, subj),
+                  'the data signed must be the caller\'s subject (the key being bound)', where=fb.where, expected=['key'], found=subj)
 
 
 # ------------------------------------------------------------------------------------------------ C02.2
@@ -502,22 +515,30 @@ def check_sig_codecs(rep, prog):
 def check_sigv4_writer(rep, prog):
     ci = prog.cls('pgpy.packet.packets', 'SignatureV4')
     wb = ci.methods['__bytearray__']
+    X = wb.params[0]
+    fields = [BYTE('%s.sigtype' % X), BYTE('%s.pubalg' % X), BYTE('%s.halg' % X)]
+    tail = [SYM('%s.hash2' % X), SYM('%s.signature.__bytearray__()' % X)]
+    tpl = [SYM('%s.header.__bytearray__()' % X)] + fields + [SYM('%s.subpackets.__bytearray__()' % X)] + tail
     for s in Interp(prog, Scenario()).run(wb):
         r = render(s.ret)
-        exp = ('self.header.__bytearray__() INT(1;self.sigtype) INT(1;self.pubalg) INT(1;self.halg) self.subpackets.__bytearray__() '
-               'self.hash2 self.signature.__bytearray__()')
-        rep.check(r == exp, 'C02.5', 'SignatureV4.__bytearray__', r,
+        ok, _, msg = match(s.ret.items, tpl) if isinstance(s.ret, Bytes) else (False, 0, 'not a byte string')
+        rep.check(ok, 'C02.5', 'SignatureV4.__bytearray__', r,
                   'a V4 signature body is type, pk alg, hash alg, hashed+unhashed areas, left 16 bits, signature MPIs (RFC 4880 5.2.3)',
-                  where=wb.where, expected=exp, found=r)
+                  where=wb.where, expected=render_template(tpl), found='%s (%s)' % (r, msg))
     cb = ci.methods['canonical_bytes']
+    X = cb.params[0]
     for s in Interp(prog, Scenario()).run(cb):
         r = render(s.ret)
-        body = ('INT(1;self.header.version) INT(1;self.sigtype) INT(1;self.pubalg) INT(1;self.halg) self.subpackets.__hashbytearray__() '
-                'INT(2;0) self.hash2 self.signature.__bytearray__()')
-        exp = 'C(88) LEN(4;%s) %s' % (body, body)
-        rep.check(r == exp, 'C02.5', 'SignatureV4.canonical_bytes', r[:100],
+        raw = merge_consts(s.ret.items) if isinstance(s.ret, Bytes) else []
+        # the four-octet count must be the length of exactly the terms that follow it (whatever they are; they are matched next)
+        k = next((i for i, it in enumerate(raw) if it[0] == 'INT' and str(it[1]) == '4'), None)
+        rest = 'len(%s)' % render_items(raw[k + 1:]) if k is not None else None
+        body = [BYTE('%s.header.version' % X)] + fields + [SYM('%s.subpackets.__hashbytearray__()' % X), C('0000')] + tail
+        tpl = [C('88'), Pred('LEN(4; the body that follows)', lambda it, _rest=rest: it[0] == 'INT' and str(it[1]) == '4' and it[2] == _rest)] + body
+        ok, _, msg = match(raw, tpl) if raw else (False, 0, 'not a byte string')
+        rep.check(ok, 'C02.5', 'SignatureV4.canonical_bytes', r[:100],
                   'a signature being signed/attested is 0x88, four-octet length, body with an empty unhashed area (RFC 4880 5.2.4)',
-                  where=cb.where, expected=exp, found=r)
+                  where=cb.where, expected=render_template(tpl), found='%s (%s)' % (r, msg))
     # the two areas when built from objects (for the hashed one: no received octets are held, C05.2 decides which attribute that is)
     sp = prog.cls('pgpy.packet.fields', 'SubPackets')
     from rules.C05 import raw_attribute
